@@ -77,6 +77,8 @@ def is_timed(event):
 
 def examine(case):
     k = case['kind']
+    if k == 'history':
+        return examine_history(case)
     year, g, event = case['year'], case['g'], case['event']
     cells, best = row_cells(year, g, event)
     if cells is None:
@@ -247,8 +249,124 @@ def shard(ctx, payload):
     ctx.label('rows')
 
 
+def run_odd(step):
+    g, code, year = step['g'], step['code'], step['year']
+    if step['entry'] == 'best':
+        return call(athlib.wma_world_best, g, code, year=year)
+    if step['entry'] == 'factor':
+        return call(athlib.wma_age_factor, g, step['age'], code, year=year)
+    return call(athlib.wma_age_grade, g, 50, code, 1000.0, year=year)
+
+
+import copy as _copy
+
+_PRISTINE = None
+
+
+def _snapshot_graders():
+    """Remember the shared grader objects' and classes' state as it is right after import."""
+    global _PRISTINE
+    if _PRISTINE is None:
+        objs = [athlib.ag2015, athlib.ag2023, athlib.aag]
+        _PRISTINE = ([(o, dict(o.__dict__)) for o in objs],
+                     [(c, {k: _copy.deepcopy(v) for k, v in vars(c).items() if isinstance(v, (dict, list, set))})
+                      for c in (athlib.AgeGrader, athlib.AthlonsAgeGrader)])
+
+
+_snapshot_graders()      # at import: nothing has used the graders yet
+
+
+def reset_graders():
+    """Put the shared graders back into their just-imported state, so a history is a pure function of its steps."""
+    _snapshot_graders()
+    for o, d in _PRISTINE[0]:
+        o.__dict__.clear()
+        o.__dict__.update(d)
+    for c, d in _PRISTINE[1]:
+        for k, v in d.items():
+            cur = getattr(c, k)
+            if isinstance(cur, dict):
+                cur.clear()
+                cur.update(_copy.deepcopy(v))
+            elif isinstance(cur, list):
+                cur[:] = _copy.deepcopy(v)
+            elif isinstance(cur, set):
+                cur.clear()
+                cur.update(v)
+        for k in [k for k, v in vars(c).items() if isinstance(v, (dict, list, set)) and k not in d]:
+            try:
+                getattr(c, k).clear()
+            except Exception:
+                pass
+
+
+def examine_history(case):
+    out = []
+    reset_graders()
+    for step in case['steps']:
+        if step['kind'] == 'odd':
+            run_odd(step)
+        else:
+            out = examine(step)
+    for v in out:
+        v['sig'] = v['sig'] + ['after-other-lookups']
+        v['case'] = case
+    return out
+
+
+def shard_history(ctx, payload):
+    """History independence on the SHARED grader objects: tabulated lookups of both genders / years, non-tabulated
+    distance lookups (which use the same per-instance scratch) and grades are interleaved in one process in a seeded order;
+    every tabulated answer must still equal its table cell, whatever was asked before."""
+    n = payload
+    rng = random.Random(derive_seed(ctx.seed, 'C14-history', ctx.shard))
+    rows = []
+    for year in (2015, 2023):
+        d = table(year)
+        for g in 'mf':
+            for row in d[g]:
+                rows.append((year, g, row[0]))
+    odd = ['700', '7K', '8047', '12345', '3.5M', '250', '11K', '45', '99999']
+    last = None
+    hist = []
+    reset_graders()
+    for i in range(n):
+        if len(hist) >= 60:          # histories are segments of <= 60 steps from a reset state: fully replayable
+            hist = []
+            last = None
+            reset_graders()
+        k = rng.randrange(10)
+        year, g, event = rows[rng.randrange(len(rows))] if (k or last is None) else last
+        if k == 1:
+            # a non-tabulated distance on the same grader, through any of the three entry points
+            step = {'kind': 'odd', 'entry': rng.choice(['best', 'factor', 'grade']), 'year': year, 'g': g,
+                    'code': rng.choice(odd), 'age': rng.choice([35, 50, 72.5])}
+            run_odd(step)
+            hist.append(step)
+            ctx.count()
+            continue
+        cells, best = row_cells(year, g, event)
+        ages = [a for a in sorted(cells) if cells[a] is not None]
+        age = rng.choice(ages)
+        kind = 'factor' if k < 7 else 'grade'
+        if kind == 'grade' and (cells.get(age) is None):
+            kind = 'factor'
+        case = {'kind': kind, 'year': year, 'g': g, 'event': event, 'age': age}
+        ctx.count()
+        vs = examine(case)
+        if vs:
+            for v in vs:
+                v['sig'] = v['sig'] + ['after-other-lookups']
+                v['case'] = {'kind': 'history', 'steps': hist + [case]}
+            ctx.violations(vs)
+        hist.append(case)
+        last = (year, g, event)
+    ctx.label('interleaved-history-calls', n)
+
+
 def run(ctx):
     thorough = ctx.tier == 'thorough'
+    run_shards(ctx, 'checks.c14', 'shard_history', [20000 if thorough else 2500] * 16, disjoint=False)
     payloads = []
     for year in (2015, 2023, 'athlon'):
         d = table(year)
@@ -257,3 +375,25 @@ def run(ctx):
                 payloads.append((year, g, row[0], thorough))
     run_shards(ctx, 'checks.c14', 'shard', payloads, disjoint=True)
     ctx.extra['rows'] = len(payloads)
+
+
+def shrink(bucket):
+    case = bucket['case']
+    if case.get('kind') != 'history':
+        return None
+    sig = bucket['sig']
+    steps = list(case['steps'])
+
+    def fails(st):
+        return any(v['sig'] == sig for v in examine({'kind': 'history', 'steps': st}))
+    if not fails(steps):
+        return None
+    i = 0
+    while i < len(steps) - 1:
+        t = steps[:i] + steps[i + 1:]
+        if fails(t):
+            steps = t
+        else:
+            i += 1
+    v = [v for v in examine({'kind': 'history', 'steps': steps}) if v['sig'] == sig][0]
+    return {'case': v['case'], 'observed': v['observed']}
